@@ -237,7 +237,9 @@ class Subject:
         """Bounds for the number of record sets kept at limit L.
         must_keep: sets that fit even under the most pessimistic accounting of OPT
         (padding up to pad-1 octets) and TSIG (owner not compressed)."""
-        r_upper = self.opt_size() + (self.pad - 1 if self.pad else 0) + self.tsig_size()
+        # a whole padding block is allowed for, so that an implementation that reserves room
+        # for the padding (any amount up to one block) is not faulted for it
+        r_upper = self.opt_size() + self.pad + self.tsig_size()
         k = 0
         while k < self.n and self.E[k + 1] + r_upper <= L:
             k += 1
@@ -516,8 +518,8 @@ class Subject:
                     _f(
                         out,
                         "C08.toobig_or_truncate",
-                        f"limit {L}: TooBig although truncation was preferred (no padding; tsig={'yes' if self.tsig else 'no'})",
-                        {"site": "dns.message.Message.to_wire", "exc": "TooBig", "class": "prefer_truncation=True without padding"},
+                        f"limit {L}: TooBig although truncation was preferred and padding (block {self.pad}) does not explain it; tsig={'yes' if self.tsig else 'no'}",
+                        {"site": "dns.message.Message.to_wire", "exc": "TooBig", "class": "prefer_truncation=True, not explained by padding"},
                     )
             else:
                 # legitimate unless the whole message fits under the most pessimistic accounting
@@ -555,7 +557,7 @@ class Subject:
     def boundary_limits(self):
         r_lo = self.opt_size() + self.tsig_size(owner_len=2)
         r = self.opt_size() + self.tsig_size()
-        r_hi = r + (self.pad - 1 if self.pad else 0)
+        r_hi = r + self.pad
         top = len(self.full) + 1
         s = {512, 513, len(self.full) - 1, len(self.full), len(self.full) + 1}
         for e in self.E:
@@ -842,7 +844,7 @@ def _huge(R, s):
             R.violation(
                 "C08.toobig_or_truncate",
                 f"a message larger than 65535 octets: TooBig although truncation was preferred (max_size={max_size})",
-                sig={"site": "dns.message.Message.to_wire", "exc": "TooBig", "class": "prefer_truncation=True without padding"},
+                sig={"site": "dns.message.Message.to_wire", "exc": "TooBig", "class": "prefer_truncation=True, not explained by padding"},
                 replay={"desc": desc, "clause": "C08.toobig_or_truncate", "sig": {}},
             )
         if outcome == "toobig" and pt and s.pad:
